@@ -627,6 +627,149 @@ fn e2e_one(rng: &mut rand::rngs::StdRng, idx: usize, dir: &str) -> Value {
            "ts_all": ts_seen.iter().all(|x| *x), "ts_none": ts_seen.iter().all(|x| !*x), "frames_bad": frames_bad, "unparsed": unparsed})
 }
 
+
+// ---------------------------------------------------------------------------------------------
+// raw histogram vs flush, at the granularity of the bucket's atomic operations: the events are those of
+// bucket.rs (C05) and the run is validated against Bucket.tla (TraceBucket): every recorded value is sent by
+// exactly one flush or is still in the bucket. Process ids follow Bucket.tla: pushers 1..3, flusher = clearer 4,
+// its is_empty() calls = 6.
+
+fn bucket_ptr_args(site: &str) -> &'static [usize] {
+    match site {
+        "blk.len.pre" | "blk.wr.pre" | "blk.claim.pre" | "blk.claim.post" | "blk.write.pre" | "blk.ack.pre"
+        | "blk.ack.post" | "blk.nextlen.pre" | "blk.nextlen.post" | "push.load.post" | "push.casnew.post"
+        | "push.casfull.pre" | "clr.load.post" | "clr.cas.pre" | "clr.next.pre" | "clr.next.post"
+        | "rd.load.post" | "rd.next.pre" | "rd.next.post" | "ie.load.post" => &[0],
+        "push.casfull.post" => &[1],
+        _ => &[],
+    }
+}
+
+fn run_hist(rng: &mut rand::rngs::StdRng) -> (Vec<Value>, Stop) {
+    let cfg = StateConfiguration {
+        agg_mode: AggregationMode::Conservative,
+        telemetry: false,
+        histogram_sampling: false,
+        histogram_reservoir_size: 8,
+        histograms_as_distributions: rng.random_range(0..2) == 0,
+        global_labels: vec![],
+        global_prefix: None,
+    };
+    let mut driver = Driver::new(cfg, 8192, false);
+    let rec = driver.recorder();
+    let md = Metadata::new("t", Level::INFO, None);
+    let h = rec.register_histogram(&Key::from_name("h1"), &md);
+    let prefill = [0usize, 0, 1, 61, 62, 62, 63, 63, 64][rng.random_range(0..9)];
+    for j in 0..prefill {
+        h.record((1000 + j) as f64);
+    }
+    let np = rng.random_range(1..=2usize);
+    let nfl = rng.random_range(1..=3usize);
+    let s = Sched::new_filtered(np + 1, false, &["push.", "blk.", "clr.", "rd.", "ie.", "hist.", "flush."]);
+    let mut hs = vec![];
+    for p in 1..=np {
+        let h = h.clone();
+        let n = rng.random_range(1..=3usize);
+        hs.push(s.spawn(p, move || {
+            for i in 1..=n {
+                h.record((p * 10 + i) as f64);
+                metrics::verif::point("push.done.post", &[(p * 10 + i) as i64]);
+            }
+        }));
+    }
+    let slog = s.clone();
+    let sc = Scenario { aggressive: false, as_dist: false, prefix: false, labels: false, nc: 0, warm: vec![], progs: vec![], flushes: 0, setup_flush: false, sched: None };
+    hs.push(s.spawn(4, move || {
+        for _ in 0..nfl {
+            metrics::verif::point("flush.begin.post", &[]);
+            let payloads = driver.flush_once();
+            let mut vals: Vec<i64> = vec![];
+            let mut bad = 0i64;
+            for p in &payloads {
+                let text = String::from_utf8_lossy(p);
+                for line in text.lines() {
+                    let first = line.split('|').next().unwrap_or("");
+                    match first.split_once(':') {
+                        Some(("h1", vs)) => {
+                            for v in vs.split(':') {
+                                match v.parse::<f64>() {
+                                    Ok(x) => vals.push(x as i64),
+                                    Err(_) => bad += 1,
+                                }
+                            }
+                        }
+                        _ => bad += 1,
+                    }
+                }
+            }
+            let _ = &sc;
+            if bad > 0 {
+                slog.log(4, "flush.bad.post", &[bad]);
+            }
+            slog.log(4, "flush.vals.post", &vals);
+        }
+    }));
+    let stop = {
+        let mut r2 = rng.clone();
+        let mut rc = RandomChooser::new(&mut r2);
+        let mut choose = |w: &Waiting| -> usize {
+            if let Some((&t, _)) = w.iter().find(|(_, (s, _))| s == "start.pre") {
+                return t;
+            }
+            rc.choose(w)
+        };
+        s.run(20_000, &mut choose)
+    };
+    let _: u64 = rng.random();
+    match stop {
+        Stop::Done => {
+            for h in hs {
+                let _ = h.join();
+            }
+        }
+        _ => s.release_all(),
+    }
+    // what is still in the bucket: one more (unscheduled, unlogged) flush by the main thread cannot be done because the
+    // driver moved into the flusher; instead the final observation is left to the specification (Conservation at quiescence
+    // uses the chain reachable from the tail), and the harness only reports the run as complete.
+    let log = s.take_log();
+    let mut namer = vh::trace::Namer::new();
+    let mut ev = vec![json!({"p": 0, "ev": "reset", "a": [prefill]})];
+    let mut in_empty = false;
+    for e in &log {
+        let site = e.ev.as_str();
+        if site == "blk.drop.post" {
+            continue;
+        }
+        if site == "blk.dropped.post" {
+            namer.retire(e.a[0]);
+            continue;
+        }
+        let mut p = e.p;
+        if p == 4 {
+            if site == "ie.load.pre" {
+                in_empty = true;
+            } else if site == "clr.load.pre" || site == "flush.vals.post" || site == "flush.begin.post" {
+                in_empty = false;
+            }
+            if in_empty {
+                p = 6;
+            }
+        }
+        let mut a = e.a.clone();
+        for &i in bucket_ptr_args(site) {
+            a[i] = namer.name(a[i]);
+        }
+        ev.push(json!({"p": p, "ev": site, "a": a}));
+    }
+    ev.push(match stop {
+        Stop::Done => json!({"p": 0, "ev": "quiet", "a": []}),
+        Stop::Budget => json!({"p": 0, "ev": "livelock", "a": []}),
+        Stop::Stuck => json!({"p": 0, "ev": "stuck", "a": []}),
+    });
+    (ev, stop)
+}
+
 fn main() {
     let args = vh::Args::parse();
     let mode = args.pos.get(0).map(|s| s.as_str()).unwrap_or("record").to_string();
@@ -687,6 +830,22 @@ fn main() {
             }
             summary["runs"] = json!(n);
             summary["diverged"] = json!(div);
+        }
+        "hist" => {
+            let runs: usize = args.num("runs", 100);
+            let mut bad = 0;
+            for _ in 0..runs {
+                let (ev, stop) = run_hist(&mut rng);
+                if !matches!(stop, Stop::Done) {
+                    bad += 1;
+                }
+                distinct.insert(ev.iter().map(|e| format!("{}{};", e["p"], e["ev"].as_str().unwrap())).collect::<String>());
+                for e in &ev {
+                    w.put(e);
+                }
+            }
+            summary["runs"] = json!(runs);
+            summary["not_done"] = json!(bad);
         }
         "e2e" => {
             let runs: usize = args.num("runs", 6);
